@@ -204,7 +204,14 @@ fn request_case(rng: &mut Rng, all: bool, rec: &mut Rec) {
     let limit = if lane { *rng.pick(&[0usize, 1, 4]) } else { *rng.pick(&LIMITS) };
     let nf = pick_nfields(rng, limit);
     let method = *rng.pick(&METHODS);
-    let target = *rng.pick(&["/", "/a/b?c=d", "*", "http://h.test/abs", "h.test:443", "/p%20q"]);
+    let long_target = format!("/{}", "x".repeat(70_000));
+    let target: &str = match rng.below(12) {
+        0 => "urn:example:thing",
+        1 => "/a`b",
+        2 => &long_target,
+        3 => "/with|pipe^caret",
+        _ => *rng.pick(&["/", "/a/b?c=d", "*", "http://h.test/abs", "h.test:443", "/p%20q", "/?", "//double//slash"]),
+    };
     let http10 = rng.chance(1, 3);
     // reuse the response field generator for the field lines
     let fields = gen_resp_head(rng, nf, false);
